@@ -15,9 +15,14 @@ CLAIMS = {
              "both runs fail); scalar rules vectorized with their declared dtype commute with EVERY row permutation for EVERY rule "
              "(no type-stability side condition is left after the otypes repair); a group's reduction does not depend on the order of its "
              "members (commutative-associative reductions; float sums in the exact-rational model); partitions of derived ids are order "
-             "free (C12, bounded-exhaustive). Tie: the real engine is run on re-ordered and re-indexed tables for every node of the "
-             "default graph.",
-        technique="Coq proof (Engine.run_rel, Perm.vectorize_declared_perm, fold1_perm) + metamorphic engine runs",
+             "free (C12, bounded-exhaustive). End to end on the model (TablePerm.run_perm_b): the concrete Coq engine Table.sem commutes "
+             "with EVERY permutation of the rows for every rule table / parameters / number of rows — rules with declared dtype and "
+             "rounding, unit conversions, all six group reductions, joins, sums by person pointer (unique p_ids); id builders excluded "
+             "(ids supplied; their partitions are C12). Its decidable side conditions are an obligation on every regenerated graph. "
+             "Tie: the real engine is run on re-ordered and re-indexed tables for every node of the default graph; U7 ties Table.sem "
+             "to the engine.",
+        technique="Coq proof (TablePerm.run_perm_b end-to-end equivariance of the model engine; Engine.run_rel, Perm.vectorize_declared_perm, "
+                  "SbpPerm, fold1_perm) + reflective side conditions on the regenerated graph + metamorphic engine runs",
         design="6/C01"),
     "C02": dict(
         text="Theorems: run_rel; row-wise cells of a population do not depend on appended rows; group entries whose id does not occur "
